@@ -1,3 +1,5 @@
 """One module per group of properties; importing this package populates campaign.REGISTRY."""
 from . import basic  # noqa: F401
 from . import rtc  # noqa: F401
+from . import faults  # noqa: F401
+from . import asynceq  # noqa: F401
